@@ -150,7 +150,7 @@ def main(argv=None):
         k = [x for x in known if x["id"] == kid][0]
         out_lines.append("KNOWN-FINDING: property=%s %s (%d obligation groups, e.g. %s :: %s)" % (
             prop, k["what"], len(hits), hits[0][0], hits[0][1]))
-    replay_dir = os.path.join(HERE, "replays", prop)
+    replay_dir = os.path.join(os.environ.get("OASVERIF_REPLAY_DIR") or os.path.join(HERE, "replays"), prop)
     if violations:
         os.makedirs(replay_dir, exist_ok=True)
     for job, jobname, cfg, o in violations:
